@@ -50,9 +50,25 @@ func userCalls(c *core.Ctx) []userCall {
 				out = append(out, userCall{call, "ScenarioFn", fn})
 			default:
 				// element of a []func() field of testing.T
+				direct := false
 				if ia, ok := an.Terminal(call.Common().Value).(*ssa.IndexAddr); ok {
 					if fld, owner := an.TerminalField(ia.X); fld != nil && an.IsNamed(owner, testingPkg, "T") {
 						out = append(out, userCall{call, "cleanup", fn})
+						direct = true
+					}
+				}
+				if _, viaAccessor := call.Common().Value.(*ssa.Call); viaAccessor && !direct {
+					// … handed out by an accessor of a wrapper type around that field (`t.stack.at(i)()`)
+					rv := an.RootFV(fn, call.Common().Value).Resolve(nil)
+					v := rv.V
+					if ld, isLd := v.(*ssa.UnOp); isLd && ld.Op == token.MUL {
+						v = ld.X
+					}
+					if ia, isIA := an.Strip(v).(*ssa.IndexAddr); isIA && rv.F != nil && rv.F.Parent != nil {
+						base := (an.FV{V: ia.X, F: rv.F}).Resolve(nil).V
+						if fld, owner := an.TerminalField(base); fld != nil && an.IsNamed(owner, testingPkg, "T") {
+							out = append(out, userCall{call, "cleanup", fn})
+						}
 					}
 				}
 			}
